@@ -30,7 +30,35 @@ ASSUMPTIONS = ["sign changes are evaluated on the recorded samples themselves (a
 def parts(tier):
     q = tier == "quick"
     return [Part("missed", strategy=evrun.event_case("missed", terminal_mode="none"), examples=1000 if q else 20000, timeout=300),
-            Part("near_tangent", strategy=_near_tangent(), examples=300 if q else 6000, timeout=300)]
+            Part("near_tangent", strategy=_near_tangent(), examples=300 if q else 6000, timeout=300),
+            Part("tiny_steps", strategy=_tiny_steps(), examples=150 if q else 3000, timeout=300)]
+
+
+@st.composite
+def _tiny_steps(draw):
+    """steps of 2^10 .. 2^23 ulps of t far from t = 0: the direction probes (3e-8 of the step and less) land on the root's own
+    floating-point number, so only the sign change over the step itself tells that (and how) g crosses"""
+    method = draw(st.sampled_from(["RK4Solver", "EulerSolver", "MidpointSolver", "RK5Solver", "HeunsSolver"]))
+    t0 = draw(st.sampled_from([1000.0, -4096.0, 2.0 ** 20, 64.0]))
+    ulp = float(np.spacing(abs(t0)))
+    h = draw(st.sampled_from([2.0 ** 10, 2.0 ** 18, 2.0 ** 22, 2.0 ** 23])) * ulp
+    N = draw(st.integers(20, 60))
+    sgn = draw(st.sampled_from([1.0, 1.0, -1.0]))
+    tf = t0 + sgn * N * h
+    evs = []
+    for _ in range(draw(st.integers(1, 3))):
+        frac = draw(st.sampled_from([0.51, 0.255, 0.73, 0.9, 0.125]))
+        tc = t0 + frac * (tf - t0)
+        kind = draw(st.sampled_from(["time", "comp"]))
+        p = dict(h=kind, s=draw(st.sampled_from([1.0, 1e3, -1.0, 1e-3])), direction=draw(st.sampled_from([0, 0, 1, -1])), terminal=False)
+        if kind == "comp":
+            p["i"] = 0
+            p["c"] = 0.25 + (tc - t0)
+        else:
+            p["c"] = tc
+        evs.append(p)
+    return dict(part="tiny_steps", method=method, dtype="float64", prob=dict(kind="const", y0=[0.25, -1.0], v=[1.0, 0.5]), t0=t0, tf=tf, dt=h,
+                rtol=1e-6, atol=1e-6, dense=draw(st.booleans()), events=evs)
 
 
 @st.composite
